@@ -39,9 +39,17 @@ def roundtrip_functions(bib, value):
     return p1, merged, [parts_of(p) for p in p2]
 
 
+def _lf(persons):
+    if not isinstance(persons, list):
+        return persons
+    return [{k: [w.replace("\r\n", "\n") for w in ws] for k, ws in p.items()} for p in persons]
+
+
 def roundtrip_stack(bib, value, key):
     m = bib.middlewares
     doc = "@article{k,\n  %s = {%s},\n  title = {T and t}\n}\n" % (key, value)
+    if len(value) % 2:
+        doc = doc.replace("\r\n", "\n").replace("\n", "\r\n")      # a CRLF document
     lib1 = bib.parse_string(doc, append_middleware=[m.SeparateCoAuthors(), m.SplitNameParts()])
     if not lib1.entries:
         return None, None, "first parse: " + str([type(b).__name__ for b in lib1.blocks])
@@ -105,7 +113,9 @@ def _chunk(lines):
             except Exception as ex:  # noqa
                 res["mism"].append(("raised", value, f"{type(ex).__name__}: {ex}", want, "stack:" + key))
                 continue
-            if v1 != want or v2 != want:
+            # (the document may have been given CRLF line ends: the first parse is compared modulo that, the law itself -
+            # second parse = first parse - exactly)
+            if _lf(v1) != _lf(want) or v2 != v1:
                 res["mism"].append(("inverse_through_stack", value, {"written": text, "first": v1, "second": v2}, want, "stack:" + key))
         if not res["samples"] and k >= 2:
             res["samples"].append({"value": value, "merged": merged, "persons": p1})
@@ -176,7 +186,7 @@ def run(chk: core.Check):
             except Exception as ex:  # noqa
                 report(chk, "raised", value, f"{type(ex).__name__}: {ex}", "inverse law", "stack:author")
                 continue
-            if v1 != p1 or v2 != p1:
+            if _lf(v1) != _lf(p1) or v2 != v1:
                 report(chk, "inverse_through_stack", value, {"written": text, "first": v1, "second": v2}, p1, "stack:author")
     chk.traces += t3
     chk.evaluations += t3
